@@ -16,7 +16,7 @@ RULE = ("bounded-exhaustive op sequences (depth<=3 quick / 4 thorough, 17-op alp
 ASSUMPTIONS = ["initial files are compact (blocks back to back in table order, free slots last at end of data)",
                "adding an UnusedBlock is not an operation of the property's domain",
                "expected payload of a library-written block is its encoding captured at call time"]
-REQUIRED = {t: "oracle:C11.unique-types oracle:C11.has oracle:C11.get_block(type) oracle:C11.get_block(index) oracle:C11.blocks oracle:C11.getter op:add:raise op:set:ok c11:files-with-holes".split() + ["histories", "observations"] for t in ("quick", "thorough")}
+REQUIRED = {t: "oracle:C11.unique-types oracle:C11.has oracle:C11.get_block(type) oracle:C11.get_block(index) oracle:C11.blocks oracle:C11.getter op:add:raise op:set:ok c11:files-with-holes oracle:C11.accessors-after-refusal-in-readonly-context".split() + ["histories", "observations"] for t in ("quick", "thorough")}
 
 
 def plan(tier, seed):
